@@ -399,8 +399,10 @@ def random_bulged_rect(rng, center=(0, 0), size=10.0, cw=False, num="float"):
             m = ((a[0] + b[0]) / 2 + nx * depth, (a[1] + b[1]) / 2 + ny * depth)
             segs.append([a, m, b])
         else:
+            # equal offsets give an exactly degree-elevated quadratic (kept in 30 % of the cases)
+            depth2 = depth if rng.random() < 0.3 else q(float(depth) * rng.uniform(0.5, 1.5))
             p1 = (a[0] + (b[0] - a[0]) / 3 + nx * depth, a[1] + (b[1] - a[1]) / 3 + ny * depth)
-            p2 = (a[0] + 2 * (b[0] - a[0]) / 3 + nx * depth, a[1] + 2 * (b[1] - a[1]) / 3 + ny * depth)
+            p2 = (a[0] + 2 * (b[0] - a[0]) / 3 + nx * depth2, a[1] + 2 * (b[1] - a[1]) / 3 + ny * depth2)
             segs.append([a, p1, p2, b])
     return ctrl_spec(segs, num, cw), {"family": "bulged-rect"}
 
@@ -426,7 +428,8 @@ def random_lens(rng, center=(0, 0), size=10.0, cw=False, num="float"):
         d = Fr(depth).limit_denominator(64)
         if degree == 2:
             return [p, ((p[0] + r[0]) / 2 + rx * d, (p[1] + r[1]) / 2 + ry * d), r]
-        return [p, (p[0] + ex / 3 + rx * d, p[1] + ey / 3 + ry * d), (p[0] + 2 * ex / 3 + rx * d, p[1] + 2 * ey / 3 + ry * d), r]
+        d2 = d if rng.random() < 0.3 else Fr(depth * rng.uniform(0.5, 1.5)).limit_denominator(64)
+        return [p, (p[0] + ex / 3 + rx * d, p[1] + ey / 3 + ry * d), (p[0] + 2 * ex / 3 + rx * d2, p[1] + 2 * ey / 3 + ry * d2), r]
 
     lower = arc(a, b, rng.uniform(0.2, 0.6), rng.choice([2, 3]))          # bulges to the right of a->b
     if rng.random() < 0.5:
